@@ -41,6 +41,8 @@ def _table(term, atoms):
 
 
 def run(db, chk) -> None:
+    from ..specs.discipline import check_facade_stateless
+    check_facade_stateless(db, chk, "C06.R-facade-stateless", ['get_idle_time_breakdown'])
     from ..specs.discipline import check_stateless
     check_stateless(db, chk, "C06.R-stateless", ['hta.analyzers.breakdown_analysis'])      # the result is a function of the arguments: no state kept between calls, caller's Trace untouched
     chk.floor("C06.R-stateless", 4)
